@@ -23,7 +23,7 @@ int a_real_plu(a_uint n, a_real *A, a_uint *p, int *sign)
                 max_i = r;
             }
         }
-        if (abs_x < A_REAL_MIN) { return A_FAILURE; }
+        if (!(abs_x >= A_REAL_MIN)) { return A_FAILURE; } /* also rejects a NaN pivot */
         if (max_i != i)
         {
             a_uint u = p[i];
